@@ -11,7 +11,7 @@
 (*                                               NfRipple, NoMemory, PoutReported, OutOfBand)                       *)
 (*   "Sweep"  NF of one amplifier type over increasing gains (C04: NfMinAtFlatMax, NfMaxAtGainMin, NonIncreasing,    *)
 (*                                               NonIncreasingExtended, ClampAboveMax, DbForDbBelowMin)             *)
-(*   "Fiber"  one fibre crossing           (C05: LossBudget + the accumulation clauses)                             *)
+(*   "Fiber"  one fibre crossing           (C05: LossBudget, NoMemory, ContribFromConfig + the accumulation clauses)*)
 (*   "Acc"    accumulators around a ROADM / amplifier crossing (C05: CdLinear, LatencyLinear, PmdQuadrature, ...)    *)
 (*   "End"    final accumulators of one ordering of a set of elements (C05: OrderIndependent, against the first      *)
 (*            "End" of the trace, carried in `ref`)                                                                  *)
@@ -27,6 +27,7 @@ TolNoAmp   == 1           \* out <= in: only the rounding of the two sides
 TolTilt    == 50000       \* GainLaw with tilt or ripple on a non-flat input comb (three-point solver), 50 mdB
 TolNfEnd   == 11000       \* nf(flatMax) = nfMin, nf(gainMin) = nfMax: the loader accepts 10 mdB, + 1 mdB
 TolAcc     == 3           \* 1e-3 ps/nm, ns, fs^2, mdB^2
+TolPmdCfg  == 30          \* fs^2: pmd_coef^2 x length against (pmd_coef x sqrt(length))^2, relative float noise on ~1e6 fs^2
 TolRamanLow  == 2000      \* LowPower / LumpedOnce / PumpsOnlyAddGain: 2 mdB (measured 6e-8 dB at -60 dBm per channel)
 TolMethods   == 40000     \* MethodsAgree without pumps: 40 mdB          (measured 3.0 mdB: perturbative 2 @50 m vs numerical @10 m)
 TolMethodsPumped == 400000 \* MethodsAgree with counter-propagating pumps: 0.4 dB (measured 32 mdB, iterative scheme @50 m vs @10 m)
@@ -92,7 +93,9 @@ StepClauses(e, r) ==
    CASE e.k = "Roadm" -> RoadmClauses(e)
      [] e.k = "Edfa"  -> EdfaClauses(e)
      [] e.k = "Sweep" -> SweepClauses(e)
-     [] e.k = "Fiber" -> Fails("LossBudget", FiberLossBudget(e, Tol)) \cup AccClauses(e)
+     [] e.k = "Fiber" -> Fails("LossBudget", FiberLossBudget(e, Tol)) \cup Fails("NoMemory", FiberNoMemory(e, Tol))
+                         \cup (IF e.acc = 1 THEN AccClauses(e) \cup Fails("ContribFromConfig", FiberContribFromConfig(e, TolAcc, TolPmdCfg))
+                              ELSE {})
      [] e.k = "Acc"   -> AccClauses(e)
      [] e.k = "End"   -> EndClauses(e, r)
      [] e.k \in {"LowPower", "LumpedOnce", "PumpsOnlyAddGain", "MethodsAgree"} -> RamanClauses(e)
